@@ -172,12 +172,37 @@ class ConnIO(object):
         except OSError:
             pass
 
+    def unacked(self):
+        """Bytes written by us that the peer's kernel has not acknowledged
+        yet (SIOCOUTQ); None if unknown."""
+        import fcntl
+        import termios
+        try:
+            return struct.unpack('i', fcntl.ioctl(
+                self.sock.fileno(), termios.TIOCOUTQ, b'\0\0\0\0'))[0]
+        except OSError:
+            return None
+
+    def wait_delivered(self, timeout=5.0):
+        """True once everything sent so far has reached the peer's kernel."""
+        t_end = time.monotonic() + timeout
+        while time.monotonic() < t_end:
+            n = self.unacked()
+            if n == 0:
+                return True
+            if n is None:
+                return False
+            time.sleep(0.001)
+        return False
+
     def close(self, abrupt=False):
         if self.closed:
             return
         self.closed = True
         try:
             if abrupt:
+                # (an abortive close discards what has not been sent yet)
+                self.all_delivered_before_reset = self.wait_delivered()
                 self.sock.setsockopt(socket.SOL_SOCKET, socket.SO_LINGER,
                                      struct.pack('ii', 1, 0))
             self.sock.close()
